@@ -197,6 +197,38 @@ dr.ENABLED = saved_enabled
 for c in cfg_comps.values():
     dr.set_enabled(c, True)
 
+# ---------------------------------------------------------------- the same set of components evaluated again after a dependency was added
+ORDERLOG = []
+
+
+def oc(name, *deps):
+    def body(*args):
+        ORDERLOG.append(name)
+        return name
+    body.__name__ = body.__qualname__ = name
+    body.__module__ = "verif_reorder_%d" % next(_ids)
+    return component(*deps)(body)
+
+
+for rounds in range(3):
+    a = oc("a")
+    b0 = oc("b0", a)
+    b = oc("b", b0)
+    c = oc("c", [a])
+    comps4 = [a, b0, b, c]
+    g = dict((x, set(dr.get_dependencies(x))) for x in comps4)
+    del ORDERLOG[:]
+    dr.run(dict(g), broker=dr.Broker())
+    first = list(ORDERLOG)
+    dr.add_dependency(c, b)               # c now also depends on b: same components, one more edge
+    g2 = dict((x, set(dr.get_dependencies(x))) for x in comps4)
+    del ORDERLOG[:]
+    dr.run(dict(g2), broker=dr.Broker())
+    second = list(ORDERLOG)
+    if b not in g2[c] or second.index("b") > second.index("c") or sorted(first) != ["a", "b", "b0", "c"] or sorted(second) != sorted(first):
+        fail(violation="C01: after a dependency was added between two components of an already evaluated set, the next evaluation attempts the "
+                       "dependent before its new dependency", first_order=first, second_order=second)
+
 # ---------------------------------------------------------------- dependency closure: get_dependency_graph == every declared edge reachable from the target
 closures = 0
 for n in range(2, 6):
